@@ -223,11 +223,11 @@ def finalStateR : List GLine → List Nat → PState → PState
   | [], _, r => r
   | l :: ls, rest, r => finalStateR ls rest (afterG r l (glinesText ls ++ rest))
 
-theorem readLoop_prefix_G (ls : List GLine) (rest : List Nat) (r : PState) (z : ZoneMap) (zo : Name) (f : Nat)
-    (hco : r.currentOrigin = some zo) (hzo : r.zoneOrigin = some zo)
+theorem readLoop_prefix_G (ls : List GLine) (rest : List Nat) (r : PState) (z : ZoneMap) (co zo : Name) (f : Nat)
+    (hco : r.currentOrigin = some co) (hzo : r.zoneOrigin = some zo)
     (htok : r.tok = after 0 false (glinesText ls ++ rest)) (d : Option Nat)
     (hd : ∀ d', d = some d' → r.defaultTTLKnown = true ∧ r.defaultTTL = d')
-    (hok : LinesOK zo r.relativize r.gfix r.lastName d ls) :
+    (hok : LinesOK co zo r.relativize r.gfix r.lastName d ls) :
     readLoop (f + ls.length) r z =
       (addAll r.effOrigin z (ls.map GLine.entry)).bind fun z' => readLoop f (finalStateR ls rest r) z' := by
   induction ls generalizing r z with
@@ -238,7 +238,7 @@ theorem readLoop_prefix_G (ls : List GLine) (rest : List Nat) (r : PState) (z : 
       intro hh
       obtain ⟨k1, k2⟩ := hd l.ttl (h3 hh)
       simp [PState.inheritedTTL, k1, k2]
-    have hstep := lineStep_G r l (glinesText ls ++ rest) zo hco hzo
+    have hstep := lineStep_G r l (glinesText ls ++ rest) co zo hco hzo
       (by simpa [glinesText, List.append_assoc] using htok) h1 (fun ho => h2 ho) hinh
     have e : f + (l :: ls).length = (f + ls.length) + 1 := by simp; omega
     rw [e]
@@ -289,10 +289,10 @@ theorem finalStateR_uniform (ls : List GLine) (rest : List Nat) (r : PState) (tt
 /-- **`$GENERATE` versus its expansion, as text**: the line `$GENERATE range lhs ttl class type rhs` and the file of
 explicit record lines for the same records (same TTL written out, in index order) lead the reader to the same zone
 and the same parser state, whatever follows in the file. -/
-theorem generate_eq_lines (f : Nat) (r : PState) (z : ZoneMap) (zo : Name)
+theorem generate_eq_lines (f : Nat) (r : PState) (z : ZoneMap) (co zo : Name)
     (rangeT lhs ttlT clsT tyT rhs rest : List Nat) (a b st ttl ty : Nat) (lm rm : Modify)
     (e : List Nat × List Nat → Entry) (nOf : List Nat × List Nat → Name) (ls : List GLine)
-    (hco : r.currentOrigin = some zo) (hzo : r.zoneOrigin = some zo)
+    (hco : r.currentOrigin = some co) (hzo : r.zoneOrigin = some zo)
     (k1 : TokOK rangeT) (k2 : TokOK lhs) (k3 : TokOK ttlT) (k4 : TokOK clsT) (k5 : TokOK tyT) (k6 : TokOK rhs)
     (hrange : grangeFromText rangeT = .ok (a, b, st)) (httl : ttlOf ttlT = some ttl)
     (hcls : classFromText clsT = some 1) (hty : typeFromText tyT = some ty)
@@ -302,7 +302,7 @@ theorem generate_eq_lines (f : Nat) (r : PState) (z : ZoneMap) (zo : Name)
         .ok (some (e item), { r with tok := after 0 false (10 :: rest), lastTTL := ttl, lastTTLKnown := true,
                                      lastName := some (nOf item) }))
     (hls : ls.map GLine.entry = (generateExpansion a b st lhs rhs lm rm).map e) (hne : ls ≠ [])
-    (hok : LinesOK zo r.relativize r.gfix r.lastName none ls) (hu : UniformLines ttl ls)
+    (hok : LinesOK co zo r.relativize r.gfix r.lastName none ls) (hu : UniformLines ttl ls)
     (hlast : lastN r.lastName ls = lastNameAfter nOf r.lastName (generateExpansion a b st lhs rhs lm rm)) :
     readLoop (f + 2)
         { r with tok := after 0 false (s2l "$GENERATE" ++ genHeaderText rangeT lhs ttlT clsT tyT rhs (10 :: rest)) } z =
@@ -311,9 +311,50 @@ theorem generate_eq_lines (f : Nat) (r : PState) (z : ZoneMap) (zo : Name)
     { r with tok := after 0 false (s2l "$GENERATE" ++ genHeaderText rangeT lhs ttlT clsT tyT rhs (10 :: rest)) } z
     rangeT lhs ttlT clsT tyT rhs rest a b st ttl ty lm rm e nOf (by simp [hco]) rfl
     k1 k2 k3 k4 k5 k6 hrange httl hcls hty hlm hrm hitems
-  have hL := readLoop_prefix_G ls rest { r with tok := after 0 false (glinesText ls ++ rest) } z zo f hco hzo rfl none
+  have hL := readLoop_prefix_G ls rest { r with tok := after 0 false (glinesText ls ++ rest) } z co zo f hco hzo rfl none
     (by intro d' h; cases h) hok
   rw [finalStateR_uniform ls rest _ ttl hne hu, hls, hlast] at hL
   exact hG.trans hL.symm
+
+/-! ## a run of `$ORIGIN` directives before the lines -/
+
+/-- `$ORIGIN t₁⏎ … $ORIGIN tₙ⏎` -/
+def originsText : List (List Nat × Name) → List Nat
+  | [] => []
+  | d :: ds => s2l "$ORIGIN " ++ (d.1 ++ 10 :: originsText ds)
+
+/-- the current origin after the run: the name of the last directive -/
+def lastOrigin : Option Name → List (List Nat × Name) → Option Name
+  | co, [] => co
+  | _, d :: ds => lastOrigin (some d.2) ds
+
+/-- each directive names its origin with an identifier token that reads as the name -/
+def OriginsOK (ds : List (List Nat × Name)) : Prop :=
+  ∀ d ∈ ds, identOK d.1 = true ∧ d.1 ≠ [] ∧ fromText d.1 none = .ok d.2
+
+/-- **any run of `$ORIGIN` directives** in a file whose zone origin is known moves the current origin to the last name
+given and leaves everything else — the zone origin in particular — as it was -/
+theorem readLoop_origin_dirs (ds : List (List Nat × Name)) (rest : List Nat) (r : PState) (z : ZoneMap) (zo : Name)
+    (f : Nat) (hzo : r.zoneOrigin = some zo) (htok : r.tok = after 0 false (originsText ds ++ rest))
+    (hok : OriginsOK ds) :
+    readLoop (f + ds.length) r z =
+      readLoop f { r with tok := after 0 false rest, currentOrigin := lastOrigin r.currentOrigin ds } z := by
+  induction ds generalizing r with
+  | nil =>
+    simp only [originsText, List.nil_append] at htok
+    simp only [List.length_nil, Nat.add_zero, lastOrigin]
+    congr 1
+    cases r; simp only at htok; subst htok; rfl
+  | cons d ds ih =>
+    obtain ⟨o1, o2, o3⟩ := hok d (by simp)
+    have hstep := lineStep_origin_dir r d.1 d.2 (originsText ds ++ rest) o1 o2 o3
+      (by simpa [originsText, List.append_assoc] using htok)
+    have e : f + (d :: ds).length = (f + ds.length) + 1 := by simp; omega
+    rw [e]
+    simp only [readLoop, readStep, bind, Except.bind, hstep, pure, Except.pure]
+    rw [ih { r with tok := after 0 false (originsText ds ++ rest), currentOrigin := some d.2,
+                    zoneOrigin := originAfter r.zoneOrigin d.2 }
+      (by simp [hzo, originAfter]) rfl (fun x hx => hok x (by simp [hx]))]
+    simp only [lastOrigin, hzo, originAfter]
 
 end Model
